@@ -412,6 +412,17 @@ func exploreCase(ctx *core.Ctx, c *Case, st *exploreState, repsID, repsOther int
 		ctx.Violation(core.Sig{Family: "compile", Feature: "callers-globals-map-modified"},
 			fmt.Sprintf("case %s: %s", c.ID, why), &Disagreement{Case: c, Component: "globals", Kind: "input-modified", A: why})
 	}
+	// the same Bundle object compiled again (Compile, CompileToTofu, one more file added)
+	for _, p := range perms {
+		key := OrderKey(p)
+		if r := refs[key]; r["rebundle"] != "" && !cs.reported["rebundle"] && unstable["accept"] == nil && unstable["err"] == nil &&
+			unstable["js:es5"] == nil && unstable["msgs"] == nil && unstable["render"] == nil {
+			cs.reported["rebundle"] = true
+			ctx.Violation(core.Sig{Family: "compile", Feature: "same-bundle-object-compiled-again-differs"},
+				fmt.Sprintf("case %s order %s: %s", c.ID, key, r["rebundle"]),
+				&Disagreement{Case: c, Component: "rebundle", Kind: "same-bundle-object", OrderA: key, OrderB: key, A: r["rebundle:a"], B: r["rebundle:b"]})
+		}
+	}
 	// Generator.WriteFile(name) must return the script of the file that carries the name
 	for _, p := range perms {
 		key := OrderKey(p)
